@@ -186,7 +186,7 @@ def truedivLI (a : LinComb) (c : Int) : M LinComb := fun s =>
     | none => .error .zerodiv
   else if s.ignoreErrors then
     match Py.invert c s.p with
-    | some i => .ok (⟨0, a.lc.scale i⟩, s)
+    | some i => .ok (⟨a.value * i % s.p, a.lc.scale i⟩, s)
     | none => .error .zerodiv
   else .error .value
 
